@@ -43,12 +43,13 @@ def _plan(draw, max_rows):
     big = draw(st.integers(0, 9)) == 0
     if big:
         # > 16 rows grouped by one key without missing cells: where an unstable sort inside grouping shows
-        n = draw(st.integers(17, 40)) if max_rows < 40 or draw(st.booleans()) else draw(st.sampled_from(gen.BIG_SIZES))
+        # sizes beyond any plausible "fast path above N rows" threshold too (both tiers)
+        n = draw(st.one_of(st.integers(17, 40), st.integers(17, 40), st.sampled_from(gen.BIG_SIZES), st.sampled_from(gen.HUGE_SIZES[:3])))
         nk = 1
     cols = []
     for j in range(nk):
         kind = draw(st.sampled_from(KEY_KINDS))
-        mode = "tight" if big else draw(st.sampled_from(["tight", "tight", "tight", "pool"]))
+        mode = "tight" if big else draw(st.sampled_from(["tight", "tight", "tight", "pool", "twins"]))
         vals = draw(gen.big_values(kind, n)) if n > 40 else draw(gen.values(kind, n, mode=mode, na="none" if big else None))
         cols.append({"name": f"g{j}", "kind": kind, "vals": vals})
     if n > 40:
